@@ -158,6 +158,14 @@ func (i *initialStatus) process() (*initialStatusResult, error) {
 	// note: we don't need to check individual fields of the certificate
 	// because CertificateID is a hash of all the fields
 	if localLastCert.CertificateID != aggLayerLastCert.CertificateID {
+		// CASE 4.1: aggsender stopped between sending the replacement of an InError certificate (same height)
+		// to agglayer and storing it to the local storage
+		if localLastCert.Status.IsInError() && aggLayerLastCert.Height == localLastCert.Height {
+			return &initialStatusResult{action: InitialStatusActionInsertNewCert,
+				message: fmt.Sprintf("agglayer have a newer cert for the height of the local InError cert, storing cert: %s",
+					aggLayerLastCert.ID()),
+				cert: aggLayerLastCert}, nil
+		}
 		return nil, fmt.Errorf("recovery: Local certificate:\n %s \n is different from agglayer certificate:\n %s",
 			localLastCert.String(), aggLayerLastCert.String())
 	}
